@@ -2,7 +2,7 @@ SPECIFICATION SpecQ
 CONSTANTS
   Sites = {"host-udp", "host-udpmux", "host-tcpmux", "srflx-own", "srflx-mux", "srflx-mapped", "relay"}
   Faults = {"none", "listen-error", "dup"}
-  Defects = {"closeSkipsOld"}
+  Defects = {}
   MaxCycles = 2
   MaxRestarts = 1
   MaxRefused = 1
